@@ -515,3 +515,11 @@ func NewTaskEvent(kind, name string) *Event {
 
 // Step parks the calling harness task at a named point.
 func (k *Kernel) Step(name string) { k.Park(NewTaskEvent("task", name), nil) }
+
+// StepWith parks the calling harness task at a named point, attaching a sample
+// (a record the oracles consume when the event is delivered).
+func (k *Kernel) StepWith(name string, sample any) {
+	ev := NewTaskEvent("task", name)
+	ev.Sample = sample
+	k.Park(ev, nil)
+}
